@@ -152,8 +152,9 @@ def tmpl(name):
 
 # ----------------------------------------------------------------------------------------------- one case
 class Case:
-    def __init__(self, names, stop='eof', cut=None, mode='transaction', cache=0, roles=(0,), paused=None, sym_status=False, plugins=False, shards=None, custom=False, params=None, second=None, second_params=None, idle_timeout=False, stmt_timeout=False, shutdown=False, checkout_failures=0, regex=False):
+    def __init__(self, names, stop='eof', cut=None, mode='transaction', cache=0, roles=(0,), paused=None, sym_status=False, plugins=False, shards=None, custom=False, params=None, second=None, second_params=None, idle_timeout=False, stmt_timeout=False, shutdown=False, checkout_failures=0, regex=False, pool_parser=None):
         self.names = list(names)
+        self.pool_parser = pool_parser  # None or 'primary' | 'replica': the POOL has the query parser on and that default_role (sessions here switch it off with SET SERVER ROLE first)
         self.regex = regex            # shard_id_regex / sharding_key_regex configured (the patterns of the example configuration): routing by comment
         self.stop = stop              # 'eof' | 'X' | 'drop' (the whole socket is gone after the last message: reads hit EOF AND writes fail)
         self.cut = cut                # None or number of bytes of the LAST message delivered before EOF
@@ -188,6 +189,7 @@ class Case:
         s += '' if not self.params else '/params:%s' % (sorted(self.params.items()),)
         s += '' if not self.shards else '/shards:%s' % (self.shards,)
         s += '/comment-routing' if self.regex else ''
+        s += '/pool-parser-default-%s' % self.pool_parser if self.pool_parser else ''
         s += ('/plugins' if self.plugins is True else '/plugins:%s' % self.plugins) if self.plugins else ''
         return s
 
@@ -252,6 +254,9 @@ def run_case(chk, ob, ip, prog, case, props, extra_judge=None):
         settings_over = {}
         if case.plugins:
             settings_over['query_parser_enabled'] = BV(1, 1)
+        if case.pool_parser:
+            settings_over['query_parser_enabled'] = BV(1, 1)
+            settings_over['default_role'] = some(ip_, ip_.make_enum('Role', 'Primary' if case.pool_parser == 'primary' else 'Replica'))
         if case.regex:
             from mirsym import rx as _rx
             settings_over['shard_id_regex'] = some(ip_, Opaque('Regex', 'regex', _rx.Compiled(SHARD_ID_RX)))
@@ -322,6 +327,18 @@ def run_case(chk, ob, ip, prog, case, props, extra_judge=None):
         if failed_at and data['outcome'][0] == 'done' and data['client_read'] < len(sent):
             V.append(('C04', 'H/checkout-failure-ends-session', 'after a checkout that timed out the session is ended instead of staying usable'))
         V += customV
+        # a replica that times out a client's statement is banned -- whether or not the client is still there to be told (C07)
+        nsrv = len(case.roles) if not case.shards else max(len(rs) for rs in case.shards)
+        if case.stmt_timeout and nsrv > 1 and data['outcome'][0] != 'pending':
+            from checks.c07 import banned_ids
+            bl = deref(ip_, getf(prog, env.pool, 'ConnectionPool', 'banlist')).fields[0].items[0]
+            banned = set(banned_ids(prog, bl))
+            for e in env.events:
+                if e[0] == 'statement_timeout':
+                    for bi in e[2]:
+                        if flat[bi].role == 1 and bi not in banned:
+                            V.append(('C07', 'H/timed-out-replica-not-banned', 'replica %d timed out the client\'s statement (statement_timeout) but is not on the ban list '
+                                      'afterwards: the next client can be sent to it again' % bi))
         if case.params is not None:
             V += c12_reference(data, complete, dec, case.params)
         if case.cache and not case.plugins and 'C08' in props and not failed_at:
@@ -361,6 +378,8 @@ def run_case(chk, ob, ip, prog, case, props, extra_judge=None):
                     cmd['client_hex'] = hexs[:2 * upto]
                     cmd['eof'] = False
             if prop == 'C10':
+                if ip_.env.get('events_lock'):
+                    cmd['contend_csmap'] = True     # (the path took a try_lock that found the map busy)
                 mm_ = re.search(r'before reading message (\d+)', text)
                 if mm_:
                     upto = sum(len(x) for x in msgs[:int(mm_.group(1))])
@@ -419,6 +438,9 @@ def run_case(chk, ob, ip, prog, case, props, extra_judge=None):
                 cmd.pop('roles', None)
             if case.custom:
                 cmd['custom'] = True
+            if case.pool_parser:
+                cmd['query_parser'] = True
+                cmd['default_role'] = case.pool_parser
             if case.regex:
                 cmd['shard_id_regex'] = SHARD_ID_RX
                 cmd['sharding_key_regex'] = SHARDING_KEY_RX
@@ -712,8 +734,9 @@ def custom_reference(data, script, dec, shard_roles, regex=False):
         if isinstance(sh, int) and bshard != sh:
             V.append(('C06', 'H/wrong-shard', 'statement %s ran on a server of shard %d although the session selected shard %d' % (HE.show(m[5:40]), bshard, sh)))
         if ro is not None and brole != ro:
-            V.append(('C13', 'H/wrong-role', 'statement %s ran on a %s although SET SERVER ROLE selected %s' %
-                      (HE.show(m[5:40]), 'primary' if brole == 0 else 'replica', 'primary' if ro == 0 else 'replica')))
+            for prop_ in ('C13', 'C05'):
+                V.append((prop_, 'H/wrong-role', 'statement %s ran on a %s although SET SERVER ROLE selected %s' %
+                          (HE.show(m[5:40]), 'primary' if brole == 0 else 'replica', 'primary' if ro == 0 else 'replica')))
     return eff, V
 
 
@@ -1040,6 +1063,9 @@ def h_violation(prop, key, cache_on, incomplete, hexs, n_before=None, denied_hex
                 hit = [1] if bad else []
             else:
                 hit = []
+        if prop == 'C07':
+            # natively: the reference backend sleeps 1.5 s on the pg_sleep statement, statement_timeout (500 ms) fires; is any server banned afterwards?
+            hit = [1] if (r.get('bans') == 0) else []
         if prop == 'C18' and key == 'H/server-state':
             # natively: SHOW SERVERS lists a connection of this pool as active although the client holds none (gone, or idle outside a transaction)
             busy = r.get('a_result') == 'still-running' and any(decv(rq.get('status_after')) != ord('I') for rq in data['reqs'][-1:])
